@@ -358,11 +358,16 @@ def exc_atom(e):
     return "other"
 
 
+def bits_atom(m):
+    """Mask values as one atom `b0110…` (row-major)."""
+    return "b" + "".join("1" if x else "0" for x in np.asarray(m).ravel())
+
+
 def mask_out(m):
     m = np.asarray(m)
     if m.dtype != bool:
         return ["err", "other"]
-    return ["ok", [int(s) for s in m.shape], [bool(x) for x in m.ravel()]]
+    return ["ok", [int(s) for s in m.shape], bits_atom(m)]
 
 
 # ------------------------------------------------------------------------------------------
@@ -490,7 +495,7 @@ def run_program(case):
         except IndexError:
             obs.append("bad")   # unknown variable
     # returned arrays at the end
-    end_same = {oi: [bool(x) for x in np.asarray(arr).ravel()] == bits for (oi, arr, bits) in returned}
+    end_same = {oi: bits_atom(arr) == bits for (oi, arr, bits) in returned}
     for oi, o in enumerate(obs):
         if isinstance(o, list) and o[0] == "ok":
             o[4] = end_same[oi]
@@ -570,7 +575,7 @@ def run_program(case):
                             [tname, node, datamap.get(id(args[1]), 999999), view_index(v), form, ret_first.get(id(val)), mo[1], mo[2]]))
     for tname in memo_tables():
         if tname not in TABLE_ORDER and memo_tables()[tname]:
-            entries.append(((99,), [tname, None, 0, 0, "pos", None, [], []]))
+            entries.append(((99,), [tname, None, 0, 0, "pos", None, [], "b"]))
     entries.sort(key=lambda e: e[0])
     out = [["obs"] + obs, ["nodes"] + nodes, ["roots"] + roots, ["hist"] + hroots, ["memo"] + [e[1] for e in entries]]
     shapes = [[int(s) for s in d.shape] for d in datas]
